@@ -11,8 +11,10 @@ import (
 	"hash/fnv"
 	"os"
 	"path/filepath"
+	"runtime/debug"
 	"sort"
 	"strconv"
+	"strings"
 	"sync"
 	"testing"
 	"time"
@@ -280,4 +282,56 @@ func Main(m *testing.M) {
 	code := m.Run()
 	Flush()
 	os.Exit(code)
+}
+
+// Guard turns a panic of the code under test into a test failure (plain tests
+// and fuzz targets only; rapid recovers panics itself).
+func Guard(t interface{ Fatalf(string, ...any) }, what string, fn func()) {
+	defer func() {
+		if r := recover(); r != nil {
+			t.Fatalf("panic in %s: %v\n%s", what, r, debug.Stack())
+		}
+	}()
+	fn()
+}
+
+// Witness runs the minimal reproduction of a defect that was found earlier.
+// fn reports what fails ("" when the defect does not reproduce). A panic counts
+// as reproduced. The driver maps a reproduced witness to KNOWN-FINDING (listed
+// as known) or VIOLATION (anything else, in particular a fixed one that returned).
+func Witness(t testing.TB, id string, fn func() string) {
+	what := func() (w string) {
+		defer func() {
+			if r := recover(); r != nil {
+				w = fmt.Sprintf("panic: %v", r)
+			}
+		}()
+		return fn()
+	}()
+	only := ""
+	var rc struct{ ID string }
+	if LoadReplay("TestWitnesses", &rc) {
+		only = rc.ID
+	}
+	if only != "" && only != id {
+		return
+	}
+	Class("witness-replayed", 1)
+	if what != "" {
+		fmt.Printf("VERIF-WITNESS %s reproduced %s\n", id, what)
+		if only == id {
+			t.Errorf("witness %s reproduced: %s", id, what)
+		}
+	}
+}
+
+// Known reports whether a finding id is listed as known (generators then
+// exclude exactly that class and count the exclusion).
+func Known(id string) bool {
+	for _, k := range strings.Split(os.Getenv("VERIF_KNOWN"), ",") {
+		if k == id {
+			return true
+		}
+	}
+	return false
 }
